@@ -1,16 +1,17 @@
 //! Which scenarios decide which property, and with what budget.
 
 use crate::framework::{Scenario, Tier};
-use crate::{scen_agg, scen_emf, scen_queue, scen_uow};
+use crate::{scen_agg, scen_emf, scen_global, scen_queue, scen_uow};
 
 pub fn scenarios(prop: &str) -> Vec<Box<dyn Scenario>> {
     match prop {
         "C01" => vec![Box::new(scen_queue::QueueFifo), Box::new(scen_queue::QueueFifoSustained)],
         "C04" => vec![Box::new(scen_queue::QueueFlushBarrier), Box::new(scen_queue::QueueFlushLiveness)],
-        "C05" => vec![Box::new(scen_queue::QueueShutdown)],
+        "C05" => vec![Box::new(scen_queue::QueueShutdown), Box::new(scen_global::GlobalDetach)],
         "C06" => vec![Box::new(scen_uow::UowClose)],
         "C13" => vec![Box::new(scen_uow::UowSlots)],
         "C14" => vec![Box::new(scen_emf::EmfHistory)],
+        "C17" => vec![Box::new(scen_global::GlobalRouting)],
         "C16" => vec![Box::new(scen_emf::EmfWriterFaults), Box::new(scen_emf::SinkFaults)],
         "C09" => vec![Box::new(scen_queue::QueueOverflow)],
         "C10" => vec![Box::new(scen_agg::Aggregation)],
@@ -18,7 +19,7 @@ pub fn scenarios(prop: &str) -> Vec<Box<dyn Scenario>> {
     }
 }
 
-pub const CLAIMED: [&str; 9] = ["C01", "C04", "C05", "C06", "C09", "C10", "C13", "C14", "C16"];
+pub const CLAIMED: [&str; 10] = ["C01", "C04", "C05", "C06", "C09", "C10", "C13", "C14", "C16", "C17"];
 
 pub struct Budget {
     /// number of runs (quick: exactly this many; thorough: upper bound)
@@ -38,6 +39,7 @@ pub fn budget(prop: &str, tier: Tier) -> Budget {
         "C06" => (400_000, 480),
         "C13" => (300_000, 480),
         "C14" => (20_000, 480),
+        "C17" => (100_000, 600),
         "C16" => (6_000, 600),
         "C10" => (100_000, 600),
         _ => (20_000, 600),
